@@ -19,7 +19,7 @@ GROUP = {
 pub struct RowFragment { pub cleared: bool, pub payee: Option<&'static str>, pub account: Option<&'static str>, pub code: Option<&'static str> }
 """),
         U("callsite:csv::import.row_transaction", CSV, [r"pub fn import<R: std::io::Read>"], fn="row_txn", no_canary=True,
-          slice=r"(let mut txn = single_entry::Txn::new\([^;]*;)\s*(txn\s*\.code_option\([^;]*;)", slice_count=1, slice_raw=True, slice_groups="all",
+          slice=r"((?:let \w+ = [^;]*;\s*)?)(let mut txn = single_entry::Txn::new\([^;]*;)\s*(txn\s*\.code_option\([^;]*;)", slice_count=1, slice_raw=True, slice_groups="all",
           rewrites=[("R1-path", "single_entry::Txn::new(", "Txn::new(", 1), ("R9-cow-str", "commodity.clone().into_owned()", "string_clone(commodity)", 1)],
           slice_template="""fn row_txn(date: NaiveDate, payee: &str, amount: Decimal, commodity: &String, fragment: &RowFragment) -> (txn: Txn)
     ensures
